@@ -173,8 +173,16 @@ func funcLoopLeftEarly(info *types.Info, p *Prog, dp *ast.FuncDecl) (n int, prob
 		}
 		var funcsLoop ast.Node
 		for x := parent[call]; x != nil && funcsLoop == nil; x = parent[x] {
-			if l, ok := x.(*ast.RangeStmt); ok && strings.HasSuffix(types.ExprString(l.X), ".Funcs") {
-				funcsLoop = x
+			if l, ok := x.(*ast.RangeStmt); ok {
+				if strings.HasSuffix(types.ExprString(l.X), ".Funcs") {
+					funcsLoop = x
+				}
+				// … or the loop over the collected names of all functions (imports and definitions)
+				if v, ok := l.Value.(*ast.Ident); ok {
+					if _, isNames := c06NameVars(info, dp)[info.ObjectOf(v)]; isNames {
+						funcsLoop = x
+					}
+				}
 			}
 		}
 		if funcsLoop == nil {
@@ -450,11 +458,7 @@ func rootMentionFn(info *types.Info, dp *ast.FuncDecl, root string) func(ast.Nod
 				return true
 			}
 			for _, pair := range [][2]ast.Expr{{be.X, be.Y}, {be.Y, be.X}} {
-				se, ok := ast.Unparen(pair[0]).(*ast.SelectorExpr)
-				if !ok || se.Sel.Name != "Name" {
-					continue
-				}
-				if sel, ok := info.Selections[se]; !ok || namedTypeName(sel.Recv()) != "Func" {
+				if !isFuncNameExpr(info, pair[0], c06NameVars(info, dp)) {
 					continue
 				}
 				switch o := ast.Unparen(pair[1]).(type) {
@@ -564,4 +568,129 @@ func rootViaFlag(info *types.Info, dp *ast.FuncDecl, root string) bool {
 		return true
 	})
 	return found
+}
+
+// c06NameVars: range variables of dp that stand for "the name of a function of the module": `for _, name := range
+// names` where the local names is filled by appending the Name of the module's functions and/or the FuncName of its
+// function imports. The result maps the variable to which of the two sources feed its list.
+type nameSources struct{ funcs, imports bool }
+
+func c06NameVars(info *types.Info, dp *ast.FuncDecl) map[types.Object]nameSources {
+	lists := map[types.Object]nameSources{}
+	ast.Inspect(dp.Body, func(n ast.Node) bool {
+		as, ok := n.(*ast.AssignStmt)
+		if !ok || len(as.Lhs) != 1 || len(as.Rhs) != 1 {
+			return true
+		}
+		call, ok := as.Rhs[0].(*ast.CallExpr)
+		if !ok || len(call.Args) != 2 {
+			return true
+		}
+		if id, ok := call.Fun.(*ast.Ident); !ok || id.Name != "append" {
+			return true
+		}
+		l, ok := as.Lhs[0].(*ast.Ident)
+		if !ok {
+			return true
+		}
+		se, ok := ast.Unparen(call.Args[1]).(*ast.SelectorExpr)
+		if !ok {
+			return true
+		}
+		sel, ok := info.Selections[se]
+		if !ok {
+			return true
+		}
+		src := lists[info.ObjectOf(l)]
+		switch {
+		case se.Sel.Name == "Name" && namedTypeName(sel.Recv()) == "Func":
+			src.funcs = true
+		case se.Sel.Name == "FuncName" && namedTypeName(sel.Recv()) == "ImportSpec":
+			src.imports = true
+		default:
+			return true
+		}
+		lists[info.ObjectOf(l)] = src
+		return true
+	})
+	out := map[types.Object]nameSources{}
+	ast.Inspect(dp.Body, func(n ast.Node) bool {
+		rs, ok := n.(*ast.RangeStmt)
+		if !ok {
+			return true
+		}
+		if x, ok := ast.Unparen(rs.X).(*ast.Ident); ok {
+			if src, ok := lists[info.ObjectOf(x)]; ok {
+				if v, ok := rs.Value.(*ast.Ident); ok {
+					out[info.ObjectOf(v)] = src
+				}
+			}
+		}
+		return true
+	})
+	return out
+}
+
+// isFuncNameExpr: e is the name of a function of the module — fn.Name with fn a *ast.Func, or a name variable.
+func isFuncNameExpr(info *types.Info, e ast.Expr, nameVars map[types.Object]nameSources) bool {
+	switch x := ast.Unparen(e).(type) {
+	case *ast.SelectorExpr:
+		if x.Sel.Name != "Name" {
+			return false
+		}
+		sel, ok := info.Selections[x]
+		return ok && namedTypeName(sel.Recv()) == "Func"
+	case *ast.Ident:
+		_, ok := nameVars[info.ObjectOf(x)]
+		return ok
+	}
+	return false
+}
+
+// c06ImportRoots: are function imports considered when the roots are marked? Either the names that are compared with
+// the roots include the imports' FuncName, or a loop over the imports marks.
+func c06ImportRoots(info *types.Info, dp *ast.FuncDecl) bool {
+	for _, src := range c06NameVars(info, dp) {
+		if src.imports {
+			return true
+		}
+	}
+	found := false
+	ast.Inspect(dp.Body, func(n ast.Node) bool {
+		rs, ok := n.(*ast.RangeStmt)
+		if !ok || !strings.HasSuffix(types.ExprString(rs.X), ".Imports") {
+			return true
+		}
+		for _, call := range callsIn(info, rs.Body.List) {
+			if f := CalleeOf(info, call); f != nil && f.Name() == "markFuncReachable" {
+				found = true
+			}
+		}
+		return true
+	})
+	return found
+}
+
+// exportNameNonEmpty: do the conditions contain a conjunct `<Func.ExportName or ExportSpec.Name> != ""`?
+func exportNameNonEmpty(info *types.Info, conds []ast.Expr) bool {
+	for _, cnd := range conds {
+		for _, e := range conjuncts(cnd) {
+			be, ok := ast.Unparen(e).(*ast.BinaryExpr)
+			if !ok || be.Op != token.NEQ {
+				continue
+			}
+			x, y := be.X, be.Y
+			if types.ExprString(ast.Unparen(x)) == `""` {
+				x, y = y, x
+			}
+			if types.ExprString(ast.Unparen(y)) != `""` {
+				continue
+			}
+			switch selField(info, x) {
+			case "Func.ExportName", "ExportSpec.Name":
+				return true
+			}
+		}
+	}
+	return false
 }
